@@ -259,16 +259,21 @@ def _clone(v: Any, memo: dict[int, Any]) -> Any:
         if isinstance(v, SList):
             n = SList(None, v.fresh)
             memo[id(v)] = n
+            for k, x in v.__dict__.items():
+                if k not in ("items", "fresh"):
+                    n.__dict__[k] = x
             n.items = [_clone(x, memo) for x in v.items]
             return n
         if isinstance(v, SDict):
             n = SDict(None, v.fresh)
             n.open, n.tag = v.open, v.tag
             for k, x in v.__dict__.items():
-                if k not in ("entries", "fresh", "open", "tag"):
+                if k not in ("entries", "fresh", "open", "tag", "sym_pairs"):
                     n.__dict__[k] = x
             memo[id(v)] = n
             n.entries = {k: _clone(x, memo) for k, x in v.entries.items()}
+            if hasattr(v, "sym_pairs"):
+                n.sym_pairs = [(k, _clone(x, memo)) for k, x in v.sym_pairs]
             return n
         n = SymSeq(v.seq, v.kind, v.name, v.length, v.elem_cls, v.elem_maker)
         memo[id(v)] = n
@@ -864,6 +869,15 @@ class Interp:
                         continue
                     if isinstance(o, SDict) and _hashable_const(k):
                         o.entries[k] = v
+                        yield s3, None
+                    elif isinstance(o, SDict) and V.is_z3(k) and k.sort() == z3.StringSort():
+                        # a store under a symbolic string key: recorded in `sym_pairs` (contracts read it); for every
+                        # other operation the dict is from now on OPEN - it may hold keys the executor does not know -
+                        # which over-approximates what follows
+                        if not hasattr(o, "sym_pairs"):
+                            o.sym_pairs = []
+                        o.sym_pairs.append((k, v))
+                        o.open = True
                         yield s3, None
                     elif isinstance(o, SList) and isinstance(k, int) and -len(o.items) <= k < len(o.items):
                         o.items[k] = v
